@@ -105,6 +105,7 @@ pub fn property() -> Property {
             signature: crate::props::c02::signature,
             essential: &["line_wraps", "frame_taller_than_terminal", "fits_again_after_overflow", "one_row_or_one_column", "log_lines"],
             workers: w,
+            decode: Some(|u| decode_multi(u, 2)),
         })],
     }
 }
